@@ -450,12 +450,19 @@ def r_same_tiles_both_ways(rule, root=None):
     is a second definition of the tile grid)"""
     fn = A.find_fn(R.LIB, "render_tiles", root=root)
     ms = [m for m in A.find(fn["body"], "Match") if "threads" in str(txt(m["e"]))]
+    bodies = [arm["body"] for arm in ms[0]["arms"]] if ms else []
+    if not ms:
+        # `if let Some(p) = eval_config.threads() { pooled } else { serial }`
+        ifs = [i_ for i_ in A.find(fn["body"], "If") if "threads()" in str(txt(i_["cond"])) and i_.get("else") is not None]
+        if ifs:
+            ms = ifs
+            bodies = [ifs[0]["then"], ifs[0]["else"]]
     if not ms:
         rule.lost("match eval_config.threads() in render_tiles")
         return
     srcs = []
-    for arm in ms[0]["arms"]:
-        t = str(txt(arm["body"]))
+    for body_ in bodies:
+        t = str(txt(body_))
         m = re.search(r"([\w.()*+\[\]]+?)\.(?:into_par_iter|par_iter|into_iter|iter)\(\)", t)
         srcs.append(m.group(1) if m else None)
     if len(srcs) == 2 and srcs[0] and srcs[0] == srcs[1]:
